@@ -33,6 +33,12 @@ VALID = [
     's = "a\x0bb"\nprint(s)\n',
     "t = 'x\x0cy\u2028z'\nu = 'k\x1cl\x85m'\n",
     'import os\nw = """one\x1dtwo\u2029three"""\nprint(os.sep, w)\n',
+    # valid programs whose sys.path injection statement spans several lines (finding F50: the line-based suppression
+    # left an untokenizable or invalid remainder; seed C14-l: the tokenizer's exception then escaped from collect)
+    '__import__("sys").path[0:0] = [\n        "a",\n    "b"]\n# comment\nx = 1\n',
+    '__import__("sys").path[0:0] = """a\nb""".split()\n# comment\nx = 1  # c2\n',
+    '__import__("sys").path[0:0] = [\n    "a",\n    "b",\n]\nimport os\nprint(os.sep)\n',
+    'x = 1\n__import__("sys").path[0:0] = ["a",\n "b"]\ny = 2\n',
 ]
 
 COMMENT_ONLY = [
